@@ -16,7 +16,8 @@ def factory():
 def _mk(side, spec):
     from pams.order import LIMIT_ORDER, MARKET_ORDER, Order
     kind, price, placed, oid = spec
-    return Order(0, 0, side, MARKET_ORDER if kind == 0 else LIMIT_ORDER, 1, placed_at=placed, price=price, order_id=oid)
+    # agent ids run against order ids: the ranking must not look at the submitting agent
+    return Order(7 - oid, 0, side, MARKET_ORDER if kind == 0 else LIMIT_ORDER, 1, placed_at=placed, price=price, order_id=oid)
 
 
 PRICES = (99.0, 100.0, 101.0)
@@ -62,6 +63,10 @@ def comparator_fn(case, wit):
             continue
         b = _mk(side, dom[j])
         ka, kb = K(a), K(b)
+        try:
+            (a < b, b < a, a > b, a == b, a <= b, a >= b)
+        except Exception as e:  # noqa
+            raise Violation("C02.comparator_raises", "comparing two accepted orders of one side raised", "side %s: %r vs %r: %r" % ("buy" if side else "sell", a_s, dom[j], e))
         ok = ((a < b) == (ka < kb) and (a > b) == (kb < ka) and (a < b) != (b < a) and not (a == b) and (a != b)
               and (a <= b) == (ka < kb) and (a >= b) == (kb < ka))
         if not ok:
